@@ -86,9 +86,17 @@ def read_known():
     return fixed, opened
 
 
+def with_ulimit(cmd, cfg, binary):
+    pre = cfg.get("ulimit_v_kb")
+    if pre and "race" not in os.path.basename(binary):
+        return ["bash", "-c", "ulimit -v %d; exec \"$@\"" % pre, "x"] + cmd
+    return cmd
+
+
 def run_replays(binary, pid, files=None, dir_=None, timeout=600):
     """Returns list of (file, status, msg); status in PASS/FAIL/ERROR/DIED."""
     env = goenv()
+    cfg = CHECKS.get(pid, {})
     env["VERIF_PROP"] = pid
     env["VERIF_OUT"] = ""
     if dir_:
@@ -99,7 +107,7 @@ def run_replays(binary, pid, files=None, dir_=None, timeout=600):
         if f:
             env["VERIF_REPLAY"] = f
         try:
-            p = subprocess.run([binary, "-test.run", "^TestReplay$", "-test.timeout", "%ds" % timeout], cwd=os.path.join(HARNESS, "props"),
+            p = subprocess.run(with_ulimit([binary, "-test.run", "^TestReplay$", "-test.timeout", "%ds" % timeout], cfg, binary), cwd=os.path.join(HARNESS, "props"),
                                env=env, stdout=subprocess.PIPE, stderr=subprocess.STDOUT, text=True, timeout=timeout + 30)
             out = p.stdout
         except subprocess.TimeoutExpired as e:
@@ -190,9 +198,7 @@ def run_shard(binary, pid, cfg, tier, seed, shard, nshards, outdir, replays, tim
     env.update(cfg.get("env", {}))
     logf = open(os.path.join(outdir, "log-s%d.txt" % shard), "w")
     cmd = [binary, "-test.run", cfg["run"], "-test.timeout", "%ds" % timeout, "-test.v"]
-    pre = cfg.get("ulimit_v_kb")
-    if pre and "race" not in os.path.basename(binary):
-        cmd = ["bash", "-c", "ulimit -v %d; exec \"$@\"" % pre, "x"] + cmd
+    cmd = with_ulimit(cmd, cfg, binary)
     return subprocess.Popen(cmd, cwd=os.path.join(HARNESS, "props"), env=env, stdout=logf, stderr=subprocess.STDOUT), logf
 
 
